@@ -62,6 +62,7 @@ class ClassInfo:
     fields: List[str] = field(default_factory=list)  # annotated class-level fields in order (dataclass order)
     is_dataclass: bool = False
     properties: Dict[str, FuncInfo] = field(default_factory=dict)
+    is_namedtuple: bool = False
 
 
 @dataclass
@@ -137,6 +138,8 @@ class Model:
                 ci = ClassInfo(q, mi.name, node, [(_dotted(b) or "?") for b in node.bases])
                 ci.is_dataclass = any((_dotted(d) or _dotted(getattr(d, "func", None)) or "").endswith("dataclass")
                                       for d in node.decorator_list)
+                ci.is_namedtuple = any((_dotted(b) or "").split(".")[-1] == "NamedTuple" for b in node.bases)
+                ci.is_dataclass = ci.is_dataclass or ci.is_namedtuple  # (a typing.NamedTuple is constructed and read like a frozen dataclass)
                 for st in node.body:
                     if isinstance(st, ast.AnnAssign) and isinstance(st.target, ast.Name):
                         ci.fields.append(st.target.id)
@@ -216,11 +219,45 @@ class Model:
             q2 = self.aliases().get(qualname)
             if q2 is not None:
                 return self.functions[q2]
+            inh = self.inherited(qualname)
+            if inh is not None:
+                return inh
             raise AnchorMissing(f"function {qualname} not found")
         return self.functions[qualname]
 
+    def queue_entry_classes(self) -> Dict[str, ClassInfo]:
+        """queue attribute name -> NamedTuple class of its entries, where the code appends `Cls(...)` instances to `<x>.<queue>` (the entry
+        type of a hand-off queue; every append to that queue must use the same class)."""
+        if getattr(self, "_queue_entries", None) is None:
+            found: Dict[str, set] = {}
+            for mi in self.modules.values():
+                for n in ast.walk(mi.tree):
+                    if isinstance(n, ast.Call) and isinstance(n.func, ast.Attribute) and n.func.attr in ("append", "appendleft") and isinstance(n.func.value, ast.Attribute) \
+                            and len(n.args) == 1:
+                        a = n.args[0]
+                        cname = (_dotted(a.func) or "").split(".")[-1] if isinstance(a, ast.Call) else None
+                        ci = self.find_class(cname) if cname else None
+                        found.setdefault(n.func.value.attr, set()).add(ci.qualname if ci is not None and ci.is_namedtuple else None)
+            self._queue_entries = {q: self.classes[next(iter(cs))] for q, cs in found.items() if len(cs) == 1 and None not in cs}
+        return self._queue_entries
+
+    def inherited(self, qualname: str) -> Optional[FuncInfo]:
+        """A method of the reference tree that was pulled up into an in-repo base class (found along the class's bases)."""
+        if "." not in qualname:
+            return None
+        cq, name = qualname.rsplit(".", 1)
+        ci = self.classes.get(cq)
+        if ci is None:
+            return None
+        for c in self.mro(ci)[1:]:
+            if name in c.methods:
+                return c.methods[name]
+            if name in c.properties:
+                return c.properties[name]
+        return None
+
     def has_func(self, qualname: str) -> bool:
-        return qualname in self.functions or qualname in self.aliases()
+        return qualname in self.functions or qualname in self.aliases() or self.inherited(qualname) is not None
 
     def current(self, qualname: str) -> str:
         """Today's qualified name of a function of the reference tree (renamed nested functions are followed)."""
@@ -338,8 +375,9 @@ class Model:
                 fi = self.functions[n]
                 if n in self._aliases.values() or fi.parent is not None or fi.module != top:
                     continue
-                if not (n.count(".") == 1 or (cls_prefix is not None and n.rsplit(".", 1)[0] == cls_prefix) or (nested_cls and n.count(".") == 2)):
-                    continue
+                new_cls = n.count(".") == 2 and n.rsplit(".", 1)[0] in self.classes and not any(k.startswith(n.rsplit(".", 1)[0] + ".") for k in kset)
+                if not (n.count(".") == 1 or (cls_prefix is not None and n.rsplit(".", 1)[0] == cls_prefix) or (nested_cls and n.count(".") == 2) or new_cls):
+                    continue  # (new_cls: a method, typically __call__, of a module-level class the reference tree does not have)
                 ps = [x for x in params(fi) if x not in ("self", "cls")]
                 want_ps = [x for x in kparams[q] if x not in ("self", "cls")]
                 if want_ps and ps[len(ps) - len(want_ps):] != want_ps:
